@@ -11,6 +11,13 @@ def plan(tier, seed):
     jobs = [ch("C13", F, h, t, fun) for h in ("h_column_filter_flat", "h_column_filter_and", "h_column_filter_or",
                                                "h_column_filter_or_of_and", "h_column_filter_in",
                                                "h_column_filter_partition", "h_column_filter_partition_and")]
+    for shp in (0, 1, 2, 3):
+        j = ch("C13", F, "h_count_row_filter", t, ["api.ParquetFile.count (row_filter branch)",
+                                                   "api.ParquetFile.iter_row_groups", "api.ParquetFile._column_filter",
+                                                   "api.ParquetFile._columns_from_filters"],
+               shape=dict(filter_program=["[A]", "[P]", "[[A, P]]", "[[P, A]]"][shp]), env=dict(VERIF_FSHAPE=shp))
+        j["name"] += "[shape=%d]" % shp
+        jobs.append(j)
     fun2 = ["api.ParquetFile.to_pandas (row_filter branch)", "api.ParquetFile.count"]
     jobs.append(ch("C13", G, "h_to_pandas_mask2", t, fun2))
     jobs.append(ch("C13", G, "h_to_pandas_mask_wrong_length", t, fun2))
